@@ -41,14 +41,23 @@ Proof. repeat split; reflexivity. Qed.
 (* ------------------------------------------------------------------ *)
 (* credentials                                                         *)
 (* ------------------------------------------------------------------ *)
-(* every username (without ':', RFC 7617) and password over Unicode scalar values is
-   recovered exactly by a server doing standard base64 + UTF-8 + split at the first colon,
-   from the header value the implementation's alphabet produces *)
-Theorem credentials_recoverable : forall u p,
+(* "the server recovers exactly the username and password" for ALL strings is false of the
+   faithful model (and of the Basic scheme, RFC 7617): a username containing ':' is split at its
+   first colon - credentials_recoverable_refuted, reported by the harness as the known finding
+   C15:colon-in-username.  Guarded form: every username without ':' and every password over
+   Unicode scalar values is recovered exactly by a server doing standard base64 + UTF-8 + split
+   at the first colon, from the header value the implementation's alphabet produces *)
+Theorem credentials_recoverable_partial : forall u p,
   scalars u = true -> scalars p = true -> no_colon u = true ->
   server_recovers (model_authorization impl_params u p) = Some (u, p).
 Proof. exact credentials_recoverable_impl_l. Qed.
-Print Assumptions credentials_recoverable.
+Print Assumptions credentials_recoverable_partial.
+
+Theorem credentials_recoverable_refuted :
+  exists u p, scalars u = true /\ scalars p = true /\
+              server_recovers (model_authorization impl_params u p) <> Some (u, p).
+Proof. exact credentials_recoverable_refuted_impl_l. Qed.
+Print Assumptions credentials_recoverable_refuted.
 
 (* ... and that value is what the server finds under Authorization (any spelling) when the
    preemptive transport sends a request whose own headers do not name it *)
@@ -65,12 +74,7 @@ Theorem no_credentials_no_header : forall P k c h,
 Proof. exact no_credentials_no_header_l. Qed.
 Print Assumptions no_credentials_no_header.
 
-(* the limit of the Basic scheme itself, and the regression witness of the fixed defect *)
-Theorem colon_in_username_not_recoverable :
-  server_recovers (authorization std_alphabet [97; 58; 98]%N [99]%N) = Some ([97]%N, [98; 58; 99]%N).
-Proof. exact colon_in_username_l. Qed.
-Print Assumptions colon_in_username_not_recoverable.
-
+(* the regression witness of the defect fixed in abd7d42 *)
 Theorem urlsafe_alphabet_refuted :
   server_recovers (authorization urlsafe_alphabet [117]%N [62; 62; 63]%N) = None.
 Proof. exact urlsafe_credentials_lost_l. Qed.
@@ -85,37 +89,38 @@ Proof. repeat split; reflexivity. Qed.
 (* ------------------------------------------------------------------ *)
 (* request: body and headers                                           *)
 (* ------------------------------------------------------------------ *)
-(* a server decoding by the Content-Encoding label gets the envelope back, for every header
-   dict and message, when the label is `gzip`, `deflate`, absent, or not a compression label.
-   (Spelled otherwise - "GZIP", or under the key "content-encoding" - the label is passed on
-   but the body is not compressed: see content_encoding_is_case_sensitive below.) *)
+(* (since a506d72) for EVERY header dict and message - the name spelled in any case, several
+   spellings at once, the coding in any case - a server decoding by the Content-Encoding label
+   it RECEIVES (case-insensitively; ideal codecs) gets the envelope back: no guard is left *)
 Theorem body_fidelity : forall h msg,
-  label_plain (dict_get n_content_encoding h) = true ->
-  server_decodes (dict_get n_content_encoding h) (wire_body h msg) = Some msg.
+  server_decodes (dict_get l_content_encoding (u2_headers h)) (wire_body h msg) = Some msg.
 Proof. exact body_fidelity_l. Qed.
 Print Assumptions body_fidelity.
 
-Theorem credentials_keep_encoding : forall P k c h,
-  dict_get n_content_encoding (add_credentials P k c h) = dict_get n_content_encoding h.
-Proof. exact credentials_keep_encoding_l. Qed.
-Print Assumptions credentials_keep_encoding.
-
-Example content_encoding_is_case_sensitive :
-  let h := [(n_content_encoding, [71; 90; 73; 80]%N)] in          (* "GZIP" *)
-  label_plain (dict_get n_content_encoding h) = false /\
-  server_decodes (dict_get n_content_encoding h) (wire_body h 7%N) = None.
-Proof. split; reflexivity. Qed.
-
-(* the same, judged by the label the server itself RECEIVES: with the entry spelled
-   "Content-Encoding" once and in no other way, among any number of other headers, through any
-   transport class, with or without credentials *)
-Theorem body_fidelity_on_the_wire : forall P kind c pre post v msg,
-  no_ci l_content_encoding pre = true -> no_ci l_content_encoding post = true ->
-  label_plain (Some v) = true ->
-  let h1 := add_credentials P kind c (pre ++ (n_content_encoding, v) :: post) in
+(* ... through any transport class, with or without credentials *)
+Theorem body_fidelity_on_the_wire : forall P kind c h msg,
+  let h1 := add_credentials P kind c h in
   server_decodes (dict_get l_content_encoding (u2_headers h1)) (wire_body h1 msg) = Some msg.
 Proof. exact body_fidelity_on_the_wire_l. Qed.
 Print Assumptions body_fidelity_on_the_wire.
+
+Theorem credentials_keep_encoding : forall P k c h msg,
+  wire_body (add_credentials P k c h) msg = wire_body h msg.
+Proof. exact credentials_keep_body_l. Qed.
+Print Assumptions credentials_keep_encoding.
+
+(* the switch: compressed exactly when the LAST spelling of the header says gzip / deflate in
+   any case; every other label (x-gzip, br, identity ...) and no label leave the bytes alone *)
+Theorem compression_switch : forall h msg,
+  (forall v, last_ci l_content_encoding h None = Some v -> ci_eqb v v_gzip = true ->
+             wire_body h msg = WGzip msg) /\
+  (forall v, last_ci l_content_encoding h None = Some v -> ci_eqb v v_gzip = false ->
+             ci_eqb v v_deflate = true -> wire_body h msg = WDeflate msg) /\
+  (forall v, last_ci l_content_encoding h None = Some v -> ci_eqb v v_gzip = false ->
+             ci_eqb v v_deflate = false -> wire_body h msg = WRaw msg) /\
+  (last_ci l_content_encoding h None = None -> wire_body h msg = WRaw msg).
+Proof. exact compression_switch_l. Qed.
+Print Assumptions compression_switch.
 
 Theorem body_unlabelled_on_the_wire : forall P kind c h msg,
   no_ci l_content_encoding h = true ->
@@ -123,6 +128,14 @@ Theorem body_unlabelled_on_the_wire : forall P kind c h msg,
   dict_get l_content_encoding (u2_headers h1) = None /\ wire_body h1 msg = WRaw msg.
 Proof. exact body_unlabelled_on_the_wire_l. Qed.
 Print Assumptions body_unlabelled_on_the_wire.
+
+Example content_encoding_any_spelling :
+  let h := [(n_content_encoding, [105; 100]%N);                       (* "Content-Encoding": "id" *)
+            (l_content_encoding, [71; 90; 73; 80]%N)] in              (* "content-encoding": "GZIP" *)
+  wire_body h 7%N = WGzip 7%N /\
+  dict_get l_content_encoding (u2_headers h) = Some [71; 90; 73; 80]%N /\
+  wire_body [(n_content_encoding, [120; 45; 103; 122; 105; 112]%N)] 7%N = WRaw 7%N.   (* "x-gzip" *)
+Proof. repeat split; reflexivity. Qed.
 
 (* Content-Type and SOAPAction arrive as _SoapClient set them unless the caller names them *)
 Theorem soap_defaults_delivered : forall action opts,
@@ -168,12 +181,26 @@ Proof. reflexivity. Qed.
 (* ------------------------------------------------------------------ *)
 Theorem reply_fidelity : forall ce body gz zl,
   (ce = None -> decode_reply ce body gz zl = RReply 200 body) /\
-  (forall p, ce = Some v_gzip -> gz = Some p -> decode_reply ce body gz zl = RReply 200 p) /\
-  (forall p, ce = Some v_deflate -> zl = Some p -> decode_reply ce body gz zl = RReply 200 p) /\
-  (forall v, ce = Some v -> str_eqb v v_gzip = false -> str_eqb v v_deflate = false ->
+  (forall v p, ce = Some v -> ci_eqb v v_gzip = true -> gz = Some p ->
+               decode_reply ce body gz zl = RReply 200 p) /\
+  (forall v p, ce = Some v -> ci_eqb v v_gzip = false -> ci_eqb v v_deflate = true -> zl = Some p ->
+               decode_reply ce body gz zl = RReply 200 p) /\
+  (forall v, ce = Some v -> ci_eqb v v_gzip = false -> ci_eqb v v_deflate = false ->
              decode_reply ce body gz zl = RReply 200 body).
 Proof. exact reply_fidelity_l. Qed.
 Print Assumptions reply_fidelity.
+
+(* in one line: whenever reading the reply by its label (any case of gzip / deflate) succeeds,
+   that is the body the caller gets *)
+Theorem reply_matches_label : forall ce body gz zl p,
+  decoded_by_label ce body gz zl = Some p -> decode_reply ce body gz zl = RReply 200 p.
+Proof. exact reply_matches_label_l. Qed.
+Print Assumptions reply_matches_label.
+
+Example reply_label_any_case :
+  decode_reply (Some [71; 90; 105; 112]%N) 1%N (Some 2%N) None = RReply 200 2%N /\       (* "GZip" *)
+  decode_reply (Some [120; 45; 103; 122; 105; 112]%N) 1%N (Some 2%N) None = RReply 200 1%N. (* "x-gzip" *)
+Proof. split; reflexivity. Qed.
 
 (* HTTPError -> TransportError carrying code and body, except 202/204 through send() *)
 Theorem error_mapping : forall code body,
@@ -235,13 +262,23 @@ Theorem jar_unique : forall history, uniq (jar_of history).
 Proof. exact jar_unique_l. Qed.
 Print Assumptions jar_unique.
 
-(* the jar moves exactly on the replies urllib returned: Set-Cookie lines of an HTTPError reply
-   (3xx-5xx) are dropped, because getcookies() is only reached after u2open() returned *)
-Theorem delivered_replies_update_jar : forall P k c j q p,
+(* "any cookies earlier responses set" for ALL responses is false of the faithful model: the jar
+   moves exactly on the replies urllib returned (2xx); Set-Cookie lines of an HTTPError reply
+   (3xx-5xx, e.g. a 500 SOAP fault) are dropped because getcookies() is only reached after
+   u2open() returned - reply_cookies_stored_refuted, reported by the harness as the known finding
+   C15:cookies-of-error-replies-dropped.  Guarded form: *)
+Theorem reply_cookies_stored_partial : forall P k c j q p,
   p_challenge p = None -> is_2xx (p_status p) = true ->
   snd (model_step P k c j q p) = fold_left jar_apply (map (resolve (q_path q)) (p_cookies p)) j.
 Proof. exact delivered_replies_update_jar_l. Qed.
-Print Assumptions delivered_replies_update_jar.
+Print Assumptions reply_cookies_stored_partial.
+
+Theorem reply_cookies_stored_refuted :
+  exists P k c j q p,
+    p_challenge p = None /\ p_cookies p <> [] /\
+    snd (model_step P k c j q p) <> fold_left jar_apply (map (resolve (q_path q)) (p_cookies p)) j.
+Proof. exact reply_cookies_stored_refuted_l. Qed.
+Print Assumptions reply_cookies_stored_refuted.
 
 Theorem error_replies_leave_jar : forall P k c j q p,
   p_challenge p = None -> is_2xx (p_status p) = false -> snd (model_step P k c j q p) = j.
